@@ -10,6 +10,7 @@ import (
 	"fmt"
 	"github.com/whatap/golib/config"
 	"net"
+	"os"
 	"sync"
 	"testing"
 	"time"
@@ -50,7 +51,25 @@ type peer struct {
 	slow   bool // the collector is alive but slower than the agent: 16 KiB every 2 ms
 }
 
-func newPeer() (*peer, error) { return newPeerAt("127.0.0.1:0") }
+// newPeer listens on an ephemeral port of a loopback address that is private to this process and case
+// (127.<10 + pid mod 200>.<n / 250>.<1 + n mod 250>): a client left over from an earlier case - or from another
+// process running the same harness - that is still re-dialling its dead collector cannot reach this one even when
+// the kernel hands the same port number out again (seen once: a foreign frame on a second connection of a healthy
+// scenario while two C06 runs shared the machine).
+var peerSeq atomic.Int64
+
+func newPeer() (*peer, error) {
+	var lastErr error
+	for try := 0; try < 20; try++ {
+		n := peerSeq.Add(1)
+		p, err := newPeerAt(fmt.Sprintf("127.%d.%d.%d:0", 10+os.Getpid()%200, (n/250)%250, 1+n%250))
+		if err == nil {
+			return p, nil
+		}
+		lastErr = err
+	}
+	return nil, lastErr
+}
 
 var peer6600 atomic.Int64
 
@@ -61,7 +80,7 @@ func newPeer6600() (*peer, error) {
 	var lastErr error
 	for try := 0; try < 20; try++ {
 		n := peer6600.Add(1)
-		p, err := newPeerAt(fmt.Sprintf("127.6.%d.%d:6600", shard+1, 1+n%250))
+		p, err := newPeerAt(fmt.Sprintf("127.6.%d.%d:6600", 1+(shard+os.Getpid())%250, 1+n%250))
 		if err == nil {
 			return p, nil
 		}
